@@ -42,6 +42,8 @@ use rs_matter::Matter;
 
 #[path = "c12_wire.rs"]
 mod wire;
+#[path = "c12_icd.rs"]
+mod icd;
 
 const MASK: u64 = 0x0fff_ffff;
 const U32M: u64 = 1 << 32;
@@ -544,6 +546,7 @@ fn run_case(out: &mut Out, case: &Case) {
         "g" => run_g(out, case, &words, false),
         "G" => run_g(out, case, &words, true),
         "W" => wire::run_w(out, case, &words),
+        "C" => icd::run_c(out, case, &words),
         "e" => run_e(out, case, &words),
         "k" => run_k(out, case, &words),
         "i" => run_i(out, case, &words),
@@ -782,10 +785,79 @@ fn gen_k(r: &mut Rng, out: &mut Out, icd: bool, well: bool, len: u64, epoch: u64
     ops
 }
 
+/// `C`: the real `Icd::send_check_in`; `well` = the application obeys the interface (persist after
+/// every (re)start and after a jump that moved the boundary)
+fn gen_c(r: &mut Rng, out: &mut Out, well: bool, len: u64, epoch: u64) -> Vec<String> {
+    let mut ops: Vec<String> = Vec::new();
+    let mut pending = true;
+    let mut spent: u64 = 0;
+    let big_ok = epoch < (1 << 20);
+    for _ in 0..len {
+        match r.below(100) {
+            0..=7 => {
+                out.stat("c_gen_boot", 1);
+                ops.push(format!("boot {}", gen_k_start(r, epoch)));
+                pending = true;
+                spent += epoch;
+            }
+            8..=17 => {
+                if pending || r.chance(1, 6) {
+                    ops.push("persist".into());
+                    pending = false;
+                }
+            }
+            18..=74 => {
+                if well && pending {
+                    ops.push("persist".into());
+                    pending = false;
+                }
+                if !well && pending {
+                    out.stat("c_gen_checkin_disobeying", 1);
+                }
+                ops.push("checkin".into());
+                spent += 1;
+            }
+            75..=86 => {
+                if well && pending {
+                    ops.push("persist".into());
+                }
+                let how = if r.chance(1, 2) { "a" } else { "b" };
+                ops.push(format!("checkincrash {} {}", how, gen_k_start(r, epoch)));
+                pending = true;
+                spent += 1 + epoch;
+            }
+            _ => {
+                let d = match r.below(6) {
+                    0 => 0,
+                    1 => r.range(1, epoch.min(50)),
+                    2 => epoch,
+                    3 => epoch + r.below(3),
+                    4 if big_ok && spent < (1 << 30) => *r.pick(&[(U32M - 1) / 2, 1 << 31, 1 << 30]),
+                    _ => r.below(5000),
+                };
+                let d = d.min(U32M - 1);
+                if well && spent + d + 4 * epoch >= U32M - 1 {
+                    continue;
+                }
+                out.stat("c_gen_jump", 1);
+                ops.push(format!("jump {}", d));
+                spent += d;
+                if well || r.chance(1, 2) {
+                    ops.push("persist".into());
+                    pending = false;
+                } else {
+                    pending = true;
+                }
+            }
+        }
+    }
+    ops
+}
+
 pub fn gen(a: &Args) -> String {
     let mut r = Rng::new(a.seed);
     let mut out = Out::default();
-    out.buf.push_str("#rule one case = one lifetime of a device's storage: a start boundary (absent, 0, 1, next to the wrap-around of the counter range, or uniform) and a history of reservations / stores / uses with power losses placed before or after every individual store; streams W (the real group transmit path: a real Matter re-hydrated by Matter::startup from a recording / crash-injecting KV store, Exchange::initiate_group + group_invoke_with, the counter read from the datagram handed to the network; plus all W histories of length 4 (quick) / 6 (thorough) over {open, send, power loss before / after the store inside initiate_group, power loss}), g (group data counter through the real Sessions + initiate_group's caller protocol; plus all g histories of length 6 (quick) / 7 (thorough) over {reserve, store, stash, use, crash} from start values at the wrap), e (Events::push with a recording KV store), k (CheckInCounter, harness = application), i (Icd storage wrappers); non-trivial = at least one power loss, at least two values used and at least one store in the case (cases not reaching that are still counted when they produced two different outputs); distinct = by start boundary + operation list\n");
+    out.buf.push_str("#rule one case = one lifetime of a device's storage: a start boundary (absent, 0, 1, next to the wrap-around of the counter range, or uniform) and a history of reservations / stores / uses with power losses placed before or after every individual store; streams W (the real group transmit path: a real Matter re-hydrated by Matter::startup from a recording / crash-injecting KV store, Exchange::initiate_group + group_invoke_with, the counter read from the datagram handed to the network; plus all W histories of length 4 (quick) / 6 (thorough) over {open, send, power loss before / after the store inside initiate_group, power loss}), g (group data counter through the real Sessions + initiate_group's caller protocol; plus all g histories of length 6 (quick) / 7 (thorough) over {reserve, store, stash, use, crash} from start values at the wrap), e (Events::push with a recording KV store), C (the real Icd::send_check_in on a real Matter, the harness answering the mDNS resolve; the counter decrypted from the Check-In datagram handed to the network; power loss before / after the store of advance_counter), k (CheckInCounter, harness = application), i (Icd storage wrappers); non-trivial = at least one power loss, at least two values used and at least one store in the case (cases not reaching that are still counted when they produced two different outputs); distinct = by start boundary + operation list\n");
     // all `g` histories of a fixed length over the caller's alphabet, from start values at the wrap
     // (shorter histories are prefixes of these)
     let alphabet = ["reserve 0", "store", "stash", "use 0", "crash"];
@@ -842,6 +914,21 @@ pub fn gen(a: &Args) -> String {
         out.stat("kind_W", 1);
         let ops = gen_w(&mut cr, &mut out, sends);
         run_case(&mut out, &Case { id: w_id, kind: format!("W {}", d0_str(d0)), ops });
+        w_id += 1;
+    }
+    // the real `Icd::send_check_in` (`C`)
+    let n_c: u64 = if a.thorough { 4000 } else { 300 };
+    for _ in 0..n_c {
+        let mut cr = r.fork();
+        let epoch = gen_k_epoch(&mut cr);
+        let d0 = if cr.chance(1, 6) { None } else { Some(gen_k_start(&mut cr, epoch)) };
+        let init = gen_k_start(&mut cr, epoch);
+        let well = cr.chance(4, 5);
+        let len = if cr.chance(1, 12) { cr.range(200, 900) } else { cr.range(3, 50) };
+        out.stat("kind_C", 1);
+        out.stat(if well { "c_wellbehaved_cases" } else { "c_disobeying_cases" }, 1);
+        let ops = gen_c(&mut cr, &mut out, well, len, epoch);
+        run_case(&mut out, &Case { id: w_id, kind: format!("C {} {} {}", d0_str(d0), epoch, init), ops });
         w_id += 1;
     }
     let n_cases: u64 = if a.thorough { 60000 } else { 3000 };
